@@ -56,17 +56,17 @@ Print Assumptions C13_stereotype_in_force.
 (* only_catch_flag_matters.  A Stereotyp has five public flags; des reads on_panic_catch only (unwind.rs).  The scripts
    set all five -- bits 4..7 of a module's catch field for the initial stereotype, field a of the set_stereotyp actions
    (ops 8 / 9) at run time -- and the model never looks at the other four: a module's configuration depends on its catch
-   field only through its low four bits (on_panic_catch and the join mask), and the action decoded from a set_stereotyp
+   field only through its low four bits (on_panic_catch and the join mask) and bit 8 (reset calls send), and the action decoded from a set_stereotyp
    quadruple does not depend on its field a.  So the run of the model -- trace and returned error -- is the same for all 16
    settings of the other four flags, initially and at every change; that the code behaves the same is what the
    differential runs over the full flag space check (seeded change stereotyp_bits_shift: a packed representation that
    lets on_panic_inform_parent land on the on_panic_catch bit). *)
 Theorem C13_only_catch_flag_matters :
-  (forall k ca ca' rest, ca mod 16 = ca' mod 16 -> dec_mod k (ca :: rest) = dec_mod k (ca' :: rest)) /\
-  (forall k o a a' b c r, (o mod 16 =? 8) || (o mod 16 =? 9) = true -> quads k (o :: a :: b :: c :: r) = quads k (o :: a' :: b :: c :: r)).
+  (forall k ca ca' rest, ca mod 16 = ca' mod 16 -> N.testbit ca 8 = N.testbit ca' 8 -> dec_mod k (ca :: rest) = dec_mod k (ca' :: rest)) /\
+  (forall k o a a' b c r, (o mod 20 =? 8) || (o mod 20 =? 9) = true -> quads k (o :: a :: b :: c :: r) = quads k (o :: a' :: b :: c :: r)).
 Proof.
   split.
-  - intros k ca ca' rest H. unfold dec_mod. cbn [nxt].
+  - intros k ca ca' rest H H8. unfold dec_mod. cbn [nxt].
     assert (G1 : forall x, N.odd x = N.odd (x mod 16)).
     { intros x. rewrite (N.div_mod x 16) at 1 by discriminate. rewrite N.add_comm.
       replace (16 * (x / 16)) with (2 * (8 * (x / 16))) by (rewrite N.mul_assoc; reflexivity). apply N.odd_add_mul_2. }
@@ -77,7 +77,7 @@ Proof.
       apply N.mod_small. apply N.div_lt_upper_bound; [discriminate|]. apply (N.mod_lt x 16). discriminate. }
     assert (E1 : N.odd ca = N.odd ca') by (rewrite (G1 ca), (G1 ca'), H; reflexivity).
     assert (E2 : (ca / 2) mod 8 = (ca' / 2) mod 8) by (rewrite !G2, H; reflexivity).
-    rewrite E1, E2. reflexivity.
+    rewrite E1, E2, H8. reflexivity.
   - intros k o a a' b c r H. cbn [quads]. apply orb_true_iff in H. destruct H as [H|H]; apply N.eqb_eq in H; rewrite H; reflexivity.
 Qed.
 Print Assumptions C13_only_catch_flag_matters.
@@ -159,11 +159,11 @@ Print Assumptions C13_ok_iff.
    reported NotFinished.  Module 1's try_join()ed task panics at t = 1.  Module 2 starts with the non-catching
    stereotype, switches to the catching one in at_sim_start and panics in that same callback. *)
 Definition px_m0 : modcfg := {| c_catch := false; c_stages := 1; c_bud := 5; c_start := [[]];
-  c_msg := [[ALog 1; APanic; ALog 2]; [ALog 3]]; c_tasks := [[ASleep 3; ALog 7]; [ASleep 3; ASleep 50; ALog 9]]; c_end := []; c_join := 3 |}.
+  c_msg := [[ALog 1; APanic; ALog 2]; [ALog 3]]; c_tasks := [[ASleep 3; ALog 7]; [ASleep 3; ASleep 50; ALog 9]]; c_end := []; c_join := 3; c_rsend := false |}.
 Definition px_m1 : modcfg := {| c_catch := false; c_stages := 1; c_bud := 5; c_start := [[]];
-  c_msg := [[ALog 2]]; c_tasks := [[ASleep 1; APanic]]; c_end := []; c_join := 0 |}.
+  c_msg := [[ALog 2]]; c_tasks := [[ASleep 1; APanic]]; c_end := []; c_join := 0; c_rsend := false |}.
 Definition px_m2 : modcfg := {| c_catch := false; c_stages := 1; c_bud := 0; c_start := [[ASetCatch true; APanic]];
-  c_msg := []; c_tasks := []; c_end := []; c_join := 0 |}.
+  c_msg := []; c_tasks := []; c_end := []; c_join := 0; c_rsend := false |}.
 Definition px : script :=
   {| s_mods := [px_m0; px_m1; px_m2];
      s_inj := [(2, InjDeliver 0 0); (4, InjDeliver 0 1); (4, InjDeliver 1 0)] |}.
@@ -194,9 +194,9 @@ Proof. vm_compute. repeat split; try reflexivity; discriminate. Qed.
    the stale wake-up at 3; panicking, it keeps its timer entries and the time driver schedules a further wake-up for the
    second deadline: the run ends at 20.  Module 1's at_sim_end (a log and a send) is the same up to the time stamp. *)
 Definition pt_m0 : modcfg := {| c_catch := false; c_stages := 1; c_bud := 5; c_start := [[]];
-  c_msg := [[ALog 1; APanic]]; c_tasks := [[ASleep 3; ALog 7]; [ASleep 20; ALog 8]]; c_end := []; c_join := 0 |}.
+  c_msg := [[ALog 1; APanic]]; c_tasks := [[ASleep 3; ALog 7]; [ASleep 20; ALog 8]]; c_end := []; c_join := 0; c_rsend := false |}.
 Definition pt_m1 : modcfg := {| c_catch := false; c_stages := 1; c_bud := 5; c_start := [[]];
-  c_msg := [[ALog 2]]; c_tasks := [[ASleep 1; ALog 4]]; c_end := [ALog 30; ASend false 0 1]; c_join := 1 |}.
+  c_msg := [[ALog 2]]; c_tasks := [[ASleep 1; ALog 4]]; c_end := [ALog 30; ASend false 0 1]; c_join := 1; c_rsend := false |}.
 Definition pt : script := {| s_mods := [pt_m0; pt_m1]; s_inj := [(2, InjDeliver 0 0)] |}.
 
 Example C13_end_times_differ :
